@@ -110,9 +110,20 @@ def body(ctx, desc, x):
 
     shape = tuple(desc["shape"])
     n = len(shape)
-    tree, nodes = build(shape, _labels(n))
-    M = {m.value: m for m in IterMethod}
     kind = desc["kind"]
+    labels = _labels(n)
+    if kind == "random":
+        # clones where the shape allows it: the permutation is over nodes, not over data
+        try:
+            tree, nodes = build(shape, ["n%d" % (i % 2) for i in range(n)])
+        except Exception:  # noqa: BLE001
+            tree, nodes = build(shape, labels)
+    else:
+        tree, nodes = build(shape, labels)
+    M = {m.value: m for m in IterMethod}
+    from vlib import build as B_
+
+    obs0 = B_.observe(tree, nodes)
     if kind == "iter":
         s = int(x["s"])
         add_self = x["add_self"]
@@ -140,6 +151,8 @@ def body(ctx, desc, x):
         else:
             if [a for a in nodes[s]] != [nodes[i] for i in descendants_of(shape, s)]:
                 return "iter:node.__iter__"
+        if B_.obs_equal(B_.observe(tree, nodes), obs0) or B_.wf(tree):
+            return "iter:tree-changed-by-traversal"
         return ""
     if kind == "random":
         import nutree.tree as nt
@@ -152,6 +165,12 @@ def body(ctx, desc, x):
                 for i in range(len(lst) - 1, 0, -1):
                     jj = int(draws[i - 1])
                     lst[i], lst[jj] = lst[jj], lst[i]
+
+            @staticmethod
+            def sample(population, k):
+                lst = list(population)
+                Rnd.shuffle(lst)
+                return lst[:k]
 
         saved = nt.random
         nt.random = Rnd
@@ -166,7 +185,10 @@ def body(ctx, desc, x):
             if len([g for g in got if g is nd]) != 1:
                 return "iter:random:not-a-permutation"
         return ""
-    return _visit(ctx, desc, x, tree, nodes, M)
+    c = _visit(ctx, desc, x, tree, nodes, M)
+    if not c and (B_.obs_equal(B_.observe(tree, nodes), obs0) or B_.wf(tree)):
+        return "visit:tree-changed-by-traversal"
+    return c
 
 
 def _visit(ctx, desc, x, tree, nodes, M):
